@@ -69,6 +69,7 @@ type Applied struct {
 	Seq     int
 	T       time.Duration
 	Conn    int
+	NetID   int // id of the server-side simnet endpoint
 	DB      int
 	Args    [][]byte
 	InExec  bool
@@ -321,7 +322,11 @@ func (sv *Server) logApplied(cn *ConnState, args [][]byte, inExec bool, reply []
 	if len(reply) > 0 {
 		r = string(reply[:minInt(len(reply), 40)])
 	}
-	sv.Applied = append(sv.Applied, Applied{Seq: sv.seq, T: sv.S.Now(), Conn: cn.ID, DB: cn.DB, Args: cp, InExec: inExec, ExecID: sv.curExec, IsError: len(reply) > 0 && reply[0] == '-', Reply: r})
+	nid := -1
+	if cn.C != nil {
+		nid = cn.C.ID
+	}
+	sv.Applied = append(sv.Applied, Applied{Seq: sv.seq, T: sv.S.Now(), Conn: cn.ID, NetID: nid, DB: cn.DB, Args: cp, InExec: inExec, ExecID: sv.curExec, IsError: len(reply) > 0 && reply[0] == '-', Reply: r})
 }
 
 func minInt(a, b int) int {
